@@ -32,6 +32,7 @@ func cmdRerun(args []string) {
 		A     int    `json:"a"`
 		B     int    `json:"b"`
 		N     int    `json:"n"`
+		NX    *int   `json:"nx"`
 		P     int    `json:"p"`
 		Seq   string `json:"seq"`
 		Stops []int  `json:"stops"`
@@ -50,6 +51,7 @@ func cmdRerun(args []string) {
 		A     int    `json:"a"`
 		B     int    `json:"b"`
 		N     int    `json:"n"`
+		NX    *int   `json:"nx"`
 		P     int    `json:"p"`
 		Seq   string `json:"seq"`
 		Stops []int  `json:"stops"`
@@ -89,6 +91,9 @@ func cmdRerun(args []string) {
 			fatal("line for undeclared tree %d", e.T)
 		}
 		read := func(it item) {
+			if it.NX != nil {
+				it.N = *it.NX // the real TopK/BottomK argument selector
+			}
 			switch it.Op {
 			case "Search":
 				rec.Search(it.K)
@@ -150,7 +155,7 @@ func cmdRerun(args []string) {
 		case "GC":
 			envGC(tr)
 		default:
-			read(item{Op: e.Op, K: e.K, A: e.A, B: e.B, N: e.N, P: e.P, Seq: e.Seq, Stops: e.Stops})
+			read(item{Op: e.Op, K: e.K, A: e.A, B: e.B, N: e.N, NX: e.NX, P: e.P, Seq: e.Seq, Stops: e.Stops})
 		}
 	}
 	tr.Close()
